@@ -909,3 +909,152 @@ pub fn describe_died(prop: &str, tier: u8, seed: u64, idx: usize, status: &str) 
     rec.v("process_died", "died", format!("the worker process died ({}) while loom::model ran this program", status));
     rec
 }
+
+// ---------------------------------------------------------------------------------------------
+// C04, Arc part: which Arc operations are synchronisation edges
+// ---------------------------------------------------------------------------------------------
+// One thread accesses a cell inside the payload and releases its handle; a second thread, once it KNOWS (through a
+// relaxed flag, which orders nothing) that the handle is gone, performs one Arc operation on its own handle and
+// accesses the cell. Whether the two accesses race is decided by that operation alone: the reference count is an
+// atomic, a handle release is a Release decrement, and only the operations that `std` performs with Acquire (the last
+// decrement, a successful try_unwrap) are edges. The table below keeps to the cases that are the same under every
+// reading of the memory model (an RMW that observes the decrement + Acquire: ordered; no Acquire anywhere: race).
+
+#[derive(Clone, Copy, Debug, PartialEq)]
+enum Gate {
+    Nothing,
+    TryUnwrapFails,
+    CloneThenDrop,
+    IncThenDec,
+    TryUnwrapSucceeds,
+}
+const GATES: [Gate; 5] = [Gate::Nothing, Gate::TryUnwrapFails, Gate::CloneThenDrop, Gate::IncThenDec, Gate::TryUnwrapSucceeds];
+
+struct GatePayload {
+    cell: loom::cell::UnsafeCell<u32>,
+}
+unsafe impl Sync for GatePayload {}
+unsafe impl Send for GatePayload {}
+
+pub fn gate_total() -> usize {
+    GATES.len() * 4
+}
+
+fn gate_desc(idx: usize) -> (Gate, bool, bool) {
+    (GATES[idx % GATES.len()], (idx / GATES.len()) % 2 == 1, idx / GATES.len() >= 2)
+}
+
+pub fn gate_work(idx: usize) -> Rec {
+    use loom::sync::atomic::{AtomicUsize, Ordering::Relaxed};
+    use loom::sync::Arc;
+    use std::sync::atomic::Ordering::SeqCst;
+    let mut rec = Rec::new(idx);
+    let (gate, raw_release, writer_second) = gate_desc(idx);
+    rec.prog = format!("payload cell {} ; {} ; flag.store(1, Relaxed)  ||  if flag.load(Relaxed) == 1 {{ {:?} ; payload cell {} }}{}", if writer_second { "read" } else { "write" }, if raw_release { "decrement_strong_count(into_raw(handle))" } else { "drop(handle)" }, gate, if writer_second { "write" } else { "read" }, if gate == Gate::TryUnwrapSucceeds { "" } else { "  [main holds a third handle throughout]" });
+    rec.hash = fnv(&rec.prog);
+    rec.extra = json!({"family": "arcgate"});
+    let reached = SArc::new(std::sync::atomic::AtomicUsize::new(0));
+    let iters = SArc::new(std::sync::atomic::AtomicUsize::new(0));
+    let (r2, i2) = (reached.clone(), iters.clone());
+    let res = std::panic::catch_unwind(std::panic::AssertUnwindSafe(|| {
+        loom::model::Builder::new().check(move || {
+            if i2.fetch_add(1, SeqCst) >= 50_000 {
+                panic!("{}", ITER_CAP_MSG);
+            }
+            let a = Arc::new(GatePayload { cell: loom::cell::UnsafeCell::new(0) });
+            let b = a.clone();
+            let c = a.clone();
+            let flag = SArc::new(AtomicUsize::new(0));
+            let keep = if gate == Gate::TryUnwrapSucceeds {
+                drop(a);
+                None
+            } else {
+                Some(a)
+            };
+            let f1 = flag.clone();
+            let t1 = loom::thread::spawn(move || {
+                if writer_second {
+                    b.cell.with(|p| unsafe { std::ptr::read_volatile(p) });
+                } else {
+                    b.cell.with_mut(|p| unsafe { std::ptr::write_volatile(p, 1) });
+                }
+                if raw_release {
+                    unsafe { Arc::decrement_strong_count(Arc::into_raw(b)) };
+                } else {
+                    drop(b);
+                }
+                f1.store(1, Relaxed);
+            });
+            let (f2, r3) = (flag.clone(), r2.clone());
+            let t2 = loom::thread::spawn(move || {
+                let mut c = Some(c);
+                if f2.load(Relaxed) == 1 {
+                    let access = |pl: &GatePayload| {
+                        if writer_second {
+                            pl.cell.with_mut(|p| unsafe { std::ptr::write_volatile(p, 2) });
+                        } else {
+                            pl.cell.with(|p| unsafe { std::ptr::read_volatile(p) });
+                        }
+                    };
+                    match gate {
+                        Gate::Nothing => {}
+                        Gate::TryUnwrapFails => match Arc::try_unwrap(c.take().unwrap()) {
+                            Ok(_) => panic!("{}try_unwrap succeeded with a third handle alive", USER_PANIC_PREFIX),
+                            Err(back) => c = Some(back),
+                        },
+                        Gate::CloneThenDrop => drop(c.as_ref().unwrap().clone()),
+                        Gate::IncThenDec => unsafe {
+                            let p = Arc::as_ptr(c.as_ref().unwrap());
+                            Arc::increment_strong_count(p);
+                            Arc::decrement_strong_count(p);
+                        },
+                        Gate::TryUnwrapSucceeds => match Arc::try_unwrap(c.take().unwrap()) {
+                            Ok(pl) => {
+                                r3.fetch_add(1, SeqCst);
+                                access(&pl);
+                            }
+                            Err(_) => panic!("{}try_unwrap failed although the only other handle is known to be gone", USER_PANIC_PREFIX),
+                        },
+                    }
+                    if let Some(h) = c.as_ref() {
+                        r3.fetch_add(1, SeqCst);
+                        access(h);
+                    }
+                }
+                drop(c);
+            });
+            t1.join().unwrap();
+            t2.join().unwrap();
+            drop(keep);
+        });
+    }));
+    rec.runs = 1;
+    rec.iters = iters.load(SeqCst) as u64;
+    rec.events = reached.load(SeqCst) as u64;
+    let panic = res.err().map(panic_msg);
+    let kind = panic.as_ref().map(|m| classify(m));
+    let expect_race = gate != Gate::TryUnwrapSucceeds;
+    match kind {
+        Some(PanicKind::IterCap) => rec.status = "inconclusive:iteration-cap".into(),
+        Some(PanicKind::Causality) => {
+            if !expect_race {
+                rec.v("false_race", "", format!("a successful try_unwrap observed the release of the other handle and acquires: the accesses are ordered, yet loom reports {}", panic.clone().unwrap_or_default().lines().next().unwrap_or("")));
+            }
+        }
+        Some(k) => rec.v("unexpected_panic", format!("{} @ {}", k.short(), last_panic_file()), panic.clone().unwrap_or_default()),
+        None => {
+            if reached.load(SeqCst) == 0 {
+                rec.status = "inconclusive:gated-access-never-reached".into();
+            } else if expect_race {
+                rec.v("missed_race", "", format!("the second access was reached in {} of {} executions and nothing on the way acquires what the release of the other handle published (`std`: {}), yet loom::model returned normally", reached.load(SeqCst), rec.iters, match gate {
+                    Gate::Nothing => "no operation at all",
+                    Gate::TryUnwrapFails => "a failing try_unwrap is a compare_exchange(1, 0, Relaxed, Relaxed) that fails",
+                    Gate::CloneThenDrop => "clone is a Relaxed increment, a drop that is not the last one a Release decrement",
+                    _ => "increment_strong_count / decrement_strong_count are a Relaxed increment and a Release decrement",
+                }));
+            }
+        }
+    }
+    rec.nontrivial = reached.load(SeqCst) > 0 || panic.is_some();
+    rec
+}
